@@ -54,6 +54,7 @@ package scheduler
 // deterministic functions of the contents, the DRBG state and the balances).
 
 //@ import staking "github.com/oasisprotocol/oasis-core/go/staking/api"
+//@ import "github.com/oasisprotocol/oasis-core/go/common/quantity"
 //@ ghost var GOrdDet map[*staking.Address]bool
 
 //@ func sortAddresses
@@ -89,6 +90,6 @@ package scheduler
 
 //@ func distributeRewards
 //@   props C14
-//@   requires ctx != nil && schedulerParameters != nil
+//@   requires ctx != nil && schedulerParameters != nil && quantity.Val(&schedulerParameters.RewardFactorEpochElectionAny) >= 0
 //@   precall state\.MutableState\)\.AddRewards$ :: GOrdDet[arrOf(addrs)]
 //@   note rewards are paid in sorted address order (the order of account updates and events is part of the replicated state)
